@@ -124,6 +124,22 @@ def run(check: Check) -> None:
             check.obligation("metadata.sparse/ground", "refuted" if any("[factors not in sorted order]" not in t for t, _ in found) else "ground")
             for tag, msg in found:
                 check.violation(f"metadata::{tag}", f"(sparse output) {msg}", dict(p, tag=tag))
+    # generated formulas (splines, polynomial bases, every contrast spelling, nested transforms) read natively at a concrete point (ground)
+    from . import formula_gen
+
+    gen = formula_gen.formulas(check.seed * 2 + 41, 400 if thorough else 40, "any")
+    check.bounds["generated_formulas_native"] = len(gen)
+    for formula in gen:
+        for efr, out in itertools.product((True, False), ("pandas", "sparse")):
+            p = {"kind": "c10_meta", "formula": formula, "efr": efr, "output": out, "terms": None, "tag": None}
+            try:
+                mmg = model_matrix(formula, replays_matrix._c10_frame(), ensure_full_rank=efr, output=out)
+                found = metadata_findings(mmg, out, None)
+            except Exception as e:
+                found = [("metadata-inconsistent", f"build raised {type(e).__name__}: {e}")]
+            check.obligation("metadata.generated/ground", "refuted" if any("[factors not in sorted order]" not in t for t, _ in found) else "ground")
+            for tag, msg in found:
+                check.violation(f"metadata::{tag}", f"({out} output) {formula!r}: {msg}", dict(p, tag=tag))
     # multi-column spline transforms at a concrete point (ground)
     for formula in ("bs(a, df=4) + B:A", "cr(a, df=3):A + b", "0 + A:bs(b, df=3)"):
         for efr in (True, False):
